@@ -211,8 +211,8 @@ func (n *VariableNode) Render(w io.Writer, ctx *RenderContext) error {
 			// If in strict debug mode with error level, return an error for undefined variables
 			if debugger.level >= DebugError && ctx.engine != nil && ctx.engine.debug {
 				templateName := "unknown"
-				if ctx.engine.currentTemplate != "" {
-					templateName = ctx.engine.currentTemplate
+				if ctx.lastLoadedTemplate != nil && ctx.lastLoadedTemplate.name != "" {
+					templateName = ctx.lastLoadedTemplate.name
 				}
 				return NewError(fmt.Errorf("%w: %s", ErrUndefinedVar, n.name), templateName, n.line, 0, "")
 			}
